@@ -190,6 +190,22 @@ struct Counters  // local histogram, flushed into the shared counters when the c
 	}
 };
 
+// write-ahead description "prefix + tail" where only the short tail changes between evaluations (hot loops)
+struct Desc
+{
+	vf::Ctx& c;
+	uint32_t base;
+	Desc(vf::Ctx& c_, const str& prefix) : c(c_) { c.desc(prefix); base = c.sh->desc_len; }
+	void tail(const char* f, ...)
+	{
+		va_list ap;
+		va_start(ap, f);
+		int n = vsnprintf(c.sh->desc + base, 256, f, ap);
+		va_end(ap);
+		c.sh->desc_len = base + (n < 0 ? 0 : n > 255 ? 255 : n);
+	}
+};
+
 static str show(const str& x) { return "\"" + vf::vis(x, 40) + "\"(" + std::to_string(x.size()) + ")"; }
 
 // ------------------------------------------------------------------ mutation histories
@@ -554,8 +570,9 @@ static void func_search(vf::Ctx& c, Counters& cnt, const str& t, const str& al)
 	for (int b = 1; b < 256; b++) if (t.find((char)b) == str::npos) { chars.push_back((char)b); break; }
 	for (size_t k = 0; k < chars.size(); k++) {
 		char ch = chars[k];
+		Desc D(c, "String" + show(t));
 		for (size_t f = 0; f < froms.size(); f++) {
-			c.desc("String" + show(t) + vf::fmt(".indexOf(char 0x%02x, %d)", (unsigned char)ch, froms[f]));
+			D.tail(".indexOf(char 0x%02x, %d)", (unsigned char)ch, froms[f]);
 			int got = s.indexOf(ch, froms[f]), want = npos2m1(t.find(ch, froms[f]));
 			if (got != want) c.fail("indexOf.char", vf::fmt("got %d want %d", got, want));
 		}
@@ -580,8 +597,9 @@ static void func_search(vf::Ctx& c, Counters& cnt, const str& t, const str& al)
 		const str& p = pats[k];
 		CBuf cb(p);
 		String ps = exact(p);
+		Desc D(c, "String" + show(t) + ".indexOf(" + show(p) + ", ");
 		for (size_t f = 0; f < froms.size(); f++) {
-			c.desc("String" + show(t) + ".indexOf(" + show(p) + vf::fmt(", %d)", froms[f]));
+			D.tail("%d)", froms[f]);
 			int want = npos2m1(t.find(p, froms[f]));
 			int g1 = s.indexOf((const char*)cb, froms[f]);
 			if (g1 != want) c.fail("indexOf.cstr", vf::fmt("got %d want %d", g1, want));
@@ -797,19 +815,20 @@ static void func_substring(vf::Ctx& c, Counters& cnt, const str& t)
 	vf::Rng& r = c.rng;
 	int n = (int)t.size();
 	String s = exact(t);
+	Desc D(c, "String" + show(t));
 	if (n <= 26) {
 		for (int i = 0; i <= n; i++)
 			for (int j = i; j <= n; j++) {
-				c.desc("String" + show(t) + vf::fmt(".substring(%d,%d)", i, j));
+				D.tail(".substring(%d,%d)", i, j);
 				verify(c, s.substring(i, j), t.substr(i, j - i), "substring");
 			}
-		for (int i = 0; i <= n; i++) { c.desc("String" + show(t) + vf::fmt(".substring(%d)", i)); verify(c, s.substring(i), t.substr(i), "substring1"); }
+		for (int i = 0; i <= n; i++) { D.tail(".substring(%d)", i); verify(c, s.substring(i), t.substr(i), "substring1"); }
 		for (int i = -n; i <= n; i++) {
 			for (int m = 0; m <= n + 2; m++) {
-				c.desc("String" + show(t) + vf::fmt(".substr(%d,%d)", i, m));
+				D.tail(".substr(%d,%d)", i, m);
 				verify(c, s.substr(i, m), m_substr(t, i, m), "substr");
 			}
-			c.desc("String" + show(t) + vf::fmt(".substr(%d)", i));
+			D.tail(".substr(%d)", i);
 			verify(c, s.substr(i), m_substr(t, i, n), "substr1");
 		}
 		int e = (n + 1) * (n + 2) / 2 + (n + 1) + (2 * n + 1) * (n + 4);
@@ -821,10 +840,10 @@ static void func_substring(vf::Ctx& c, Counters& cnt, const str& t)
 		for (int rep = 0; rep < 120; rep++) {
 			int i = r.range(0, n), j = r.range(i, n);
 			if (rep < 6) { i = rep & 1 ? 0 : i; j = rep & 2 ? n : j; }
-			c.desc("String" + show(t) + vf::fmt(".substring(%d,%d)", i, j));
+			D.tail(".substring(%d,%d)", i, j);
 			verify(c, s.substring(i, j), t.substr(i, j - i), "substring");
 			int i2 = r.range(-n, n), m = r.range(0, n + 2);
-			c.desc("String" + show(t) + vf::fmt(".substr(%d,%d)", i2, m));
+			D.tail(".substr(%d,%d)", i2, m);
 			verify(c, s.substr(i2, m), m_substr(t, i2, m), "substr");
 		}
 		c.evals(240);
@@ -950,7 +969,7 @@ static void mode_func(vf::Ctx& c)
 	str al = alpha_chars(group == 3 ? (r.below(2) ? 5 : 3) : r.below(NALPHA));
 	int n = 0;
 	str t = func_text(r, al, &n);
-	if (group == 5 && r.below(3)) { n = r.below(4) ? r.range(19, 26) : r.range(0, 18); t = rnd(r, n, al); }
+	if (group == 5 && r.below(2)) { n = r.below(4) ? r.range(19, 26) : r.range(0, 18); t = rnd(r, n, al); }
 	cnt.add(n < 16 ? "subject:inline" : n < 19 ? "subject:heap 20-byte block" : "subject:heap exact block");
 	switch (group) {
 	case 0: func_search(c, cnt, t, al); break;
@@ -1073,11 +1092,11 @@ static void mode_ints(vf::Ctx& c)
 	if (c.want_sample()) c.sample(vf::fmt("block of %ld random values per type, magnitudes spread over all bit lengths", blk));
 }
 
-// exhaustive: case idx = block of 2^20 consecutive 32-bit patterns, each taken as int and as unsigned
+// exhaustive when blockbits = 20 and cases = 4096: case idx = the 32-bit patterns idx*2^20 .. +2^blockbits, each taken as int and as unsigned
 static void mode_ints32(vf::Ctx& c)
 {
 	long bits = c.opt->param("blockbits", 20);
-	uint64_t first = (uint64_t)c.idx << bits, count = 1ULL << bits;
+	uint64_t first = (uint64_t)c.idx << 20, count = 1ULL << bits;  // blockbits < 20 (quick tier): the head of every 2^20 region
 	if (first > 0xffffffffULL) return;
 	for (uint64_t v = first; v < first + count; v++) {
 		chk_int(c, (int)(unsigned)v);
